@@ -140,13 +140,28 @@ def run(case):
     traj, want, crossing = build(case)
     T = case['frames']
     o = gcall(Orientations, traj, 'P', 'S')
+    # read-only views of the parent requested before anything is derived from it (whatever they remember must not travel into the
+    # normalised / symmetrised / transformed objects)
+    for op in case.get('parent_reads', []):
+        if op == 'spherical':
+            gcall(lambda: o.vectors_spherical)
+        elif op == 'autocorrelation':
+            gcall(o.autocorrelation, allow=(ValueError,))
+        elif op == 'vectors':
+            gcall(lambda: o.vectors)
     v = np.asarray(o.vectors, float)
     want = align_bonds(v, want, case)
     # normalise
     n = np.asarray(gcall(o.normalize).vectors, float)
     ln = np.linalg.norm(want, axis=-1, keepdims=True)
+    no_ = gcall(o.normalize)
     if np.abs(np.linalg.norm(n, axis=-1) - 1).max() > 1e-12 or np.abs(n - want / ln).max() > 1e-9:
         raise Violation('normalize-unit-and-parallel', '')
+    nsph = np.asarray(gcall(lambda: no_.vectors_spherical), float)
+    naz, nel, nr = np.radians(nsph[..., 0]), np.radians(nsph[..., 1]), nsph[..., 2]
+    nback = np.stack([nr * np.cos(nel) * np.cos(naz), nr * np.cos(nel) * np.sin(naz), nr * np.sin(nel)], axis=-1)
+    if nsph.shape != want.shape or np.abs(nback - want / ln).max() > 1e-9:
+        raise Violation('spherical-invertible', f'after normalize: spherical -> Cartesian differs from the unit vectors by {np.abs(nback - want / ln).max() if nsph.shape == want.shape else nsph.shape}')
     # transform
     A = np.array(case['matrix'], float) * float(case.get('matrix_scale', 1.0))  # "all 3x3 matrices": also changes of unit (Angstrom -> m, -> fm)
     to = gcall(o.transform, A)
@@ -296,6 +311,7 @@ def mol_cases(draw, tier, min_frames=2):
     drift = [[[draw(st.floats(-0.01, 0.01)) for _ in range(3)] for _ in range(Nc)] for _ in range(T)]
     return {'lattice': lat, 'frames': T, 'centres': centres, 'bonds': bonds, 'quats': quats, 'drift': drift,
             'order': draw(st.permutations(list(range(15)))), 'matrix': [[draw(st.floats(-2, 2)) for _ in range(3)] for _ in range(3)], 'matrix_scale': draw(st.sampled_from([1.0, 1.0, 1.0, 1e-10, 1e-5, 1e-15, 1e6, 1e12])),
+            'parent_reads': draw(st.lists(st.sampled_from(['spherical', 'spherical', 'autocorrelation', 'vectors']), max_size=2)),
             'image_shift': ([[[draw(st.sampled_from([0, 0, 0, 1, -1, 3])) for _ in range(3)] for _ in range(5 * Nc)] for _ in range(T)] if draw(st.integers(0, 3)) == 0 else None),
             'point_group': draw(st.sampled_from(PG)), 'species_kind': draw(st.sampled_from(['Species', 'Element'])), 'normalized': draw(st.booleans()),
             'conj': draw(st.sampled_from([[0.3, -0.5, 0.7, 0.4], [0.9, 0.1, 0.1, 0.4], [0.5, 0.5, 0.5, 0.5]])), 'extend_at': draw(st.integers(0, 6))}
